@@ -114,6 +114,10 @@ pub struct Inner {
     /// the async transport prepares the caller's whole buffer before it reads into it (`initialize_unfilled`, then
     /// `advance(n)`), as TLS streams and std::io bridges do: more of the ReadBuf is initialised than filled
     pub init_unfilled: bool,
+    /// what flush does: 0 = done at once (after a slow write: a few polls); 1 = fails (a sink that is closed for
+    /// flushing); 2 = not ready the first time it is asked, every time (a transport with housekeeping of its own)
+    pub flush_style: u8,
+    pub flush_asked: bool,
     /// poll_flush stays Pending for this many polls after every accepted write (async only)
     pub slow_flush: u8,
     pub flush_owed: u8,
@@ -260,6 +264,7 @@ impl Write for World {
         }
     }
     fn flush(&mut self) -> io::Result<()> {
+        if self.0.lock().unwrap().flush_style == 1 { return Err(io::Error::new(io::ErrorKind::NotConnected, "verif: flush refused")); }
         Ok(())
     }
 }
@@ -304,6 +309,11 @@ impl AsyncWrite for World {
     fn poll_flush(self: Pin<&mut Self>, _cx: &mut Context<'_>) -> Poll<io::Result<()>> {
         // a transport that buffers (websocket, TLS): the flush after a write takes a few polls
         let mut w = self.0.lock().unwrap();
+        if w.flush_style == 1 { return Poll::Ready(Err(io::Error::new(io::ErrorKind::NotConnected, "verif: flush refused"))); }
+        if w.flush_style == 2 {
+            if !w.flush_asked { w.flush_asked = true; return Poll::Pending; }
+            w.flush_asked = false;
+        }
         if w.flush_owed > 0 {
             w.flush_owed -= 1;
             return Poll::Pending;
@@ -400,6 +410,8 @@ pub fn run(inst: &Instance, hist: &[Act]) -> RunResult {
         script_writes: inst.script_writes,
         vectored: inst.vectored,
         init_unfilled: inst.init_unfilled,
+        flush_style: inst.flush_style,
+        flush_asked: false,
         slow_flush: inst.slow_flush,
         ..Default::default()
     }));
